@@ -19,13 +19,14 @@ META = {
         "C02.4 the envelope shape of Payload.response/error per version region equals spec table A.2 (2.0: jsonrpc,id + "
         "exactly one of result/error; 1.0: result,error,id with null on the unused member; error object code,message "
         "(+data iff not None); jsonrpc value str(float(version))); C02.5 every Fault site has an integer literal code "
-        "and a string-typed message."),
+        "and a string-typed message; C02.6 the default JSON backend is called with ASCII escaping on, which is what makes the byte "
+        "conversion of the reply in do_POST / the CGI handler total (it runs outside any catch-all)."),
     "does_not_decide": "termination (recursion depth of nested payloads), behaviour of the JSON backend on exotic "
                        "text, the NaN/Infinity exclusion.",
     "rules": {"C02.1": "E4 type narrowing / may-raise abstract interpretation, interprocedural by summaries",
               "C02.2": "provenance of return values; event-count exploration of do_POST",
               "C02.3": "who-may-construct scan", "C02.4": "shape interpreter (E7) vs spec A.2",
-              "C02.5": "literal folding at Fault sites"},
+              "C02.5": "literal folding at Fault sites", "C02.6": "call-site keyword scan in jsonlib"},
     "assumptions": ["truthiness, ==, str(), isinstance, type() and str.format are total on every value in the domain",
                     "Config.version is a number; logging calls do not raise",
                     "a bounded notification queue raising queue.Full after its timeout is outside the domain"],
@@ -168,6 +169,25 @@ def check(ck):
                        "\"jsonrpc\": \"3.0\"" % prov.show(t), q.loc(fs, n))
         else:
             ck.ok("C02.4", "%s: dump(version=...)" % q.fn(fs), "version comes from the configuration", q.loc(fs, n))
+
+    # ---- C02.6 the reply text can always be encoded ------------------------------------------------------------
+    # utils.to_bytes(response) in do_POST (outside its catch-all) and response.encode() in the CGI handler are total only
+    # because the default JSON backend escapes every non-ASCII character: json.dumps must keep ensure_ascii (default True).
+    n6 = 0
+    for fi in prog.module_funcs("jsonlib"):
+        for c in [x for x in ast.walk(fi.node) if isinstance(x, ast.Call) and dump(x.func) == "json.dumps"]:
+            n6 += 1
+            ea = [k for k in c.keywords if k.arg == "ensure_ascii"]
+            okk = not ea or (isinstance(ea[0].value, ast.Constant) and ea[0].value.value is True)
+            ck.require(okk and not any(k.arg is None for k in c.keywords), "C02.6", "%s: `%s`" % (q.fn(fi), dump(c)), "ASCII-only output (ensure_ascii left True)",
+                       "the default backend emits raw non-ASCII characters (`%s`): a reply echoing a lone surrogate (\\ud800 in an id, a method name or a "
+                       "result) cannot be encoded by to_bytes() in do_POST, which raises outside its catch-all - the request is not answered" % dump(c),
+                       q.loc(fi, c))
+    gm_mod = prog.modules["jsonlib"]
+    direct = [x for x in ast.walk(gm_mod.tree) if isinstance(x, ast.Return) and x.value is not None and "json.dumps" in dump(x.value) and
+              isinstance(x.value, ast.Tuple)]
+    if n6 < 1 and not direct:
+        raise AnalysisError("anchor vanished: json.dumps in jsonlib")
 
     # ---- C02.5 error typing ---------------------------------------------------------------------------
     n5 = 0
